@@ -337,6 +337,24 @@ func (w *world) observe14(header string, k int) *c14obs {
 		}
 		return nil
 	}
+	// overPreviousOutput: the package as it looks after the helpers were added to a definition file
+	// that had been generated before (output of the helper-less twin present), generated with the
+	// case's own source and options.
+	overPreviousOutput := func() error {
+		twin, err := parseHeader(strings.Replace(it.header, " helpers=t", "", 1))
+		if err != nil {
+			return err
+		}
+		twin.pkg = it.pkg
+		d := filepath.Join(base, "hprev", "rp")
+		os.MkdirAll(d, 0o755)
+		twin.writeDefs(d)
+		if err := cli(d); err != nil {
+			return fmt.Errorf("twin: %v", err)
+		}
+		it.writeDefs(d)
+		return cli(d)
+	}
 	var ref []byte
 	check := func(mode, dir string) bool {
 		b, err := os.ReadFile(filepath.Join(dir, genName))
@@ -360,6 +378,13 @@ func (w *world) observe14(header string, k int) *c14obs {
 		d := mk(fmt.Sprintf("f%d", r))
 		if err := cli(d); err != nil {
 			o.repeat = err.Error()
+			if r == 0 && strings.Contains(it.header, " helpers=t") {
+				// refused in a fresh package: the refusal is only "a function of source and options"
+				// if the same source and options are also refused once an output sits in the package
+				if overPreviousOutput() == nil {
+					o.repeat = "differs:error-in-fresh-package-success-over-previous-output"
+				}
+			}
 			return o
 		}
 		if !check("separate-process", d) {
@@ -404,6 +429,15 @@ func (w *world) observe14(header string, k int) *c14obs {
 		bld.Env = w.env
 		_, berr := bld.CombinedOutput()
 		o.compiles = berr == nil
+	}
+	if strings.Contains(it.header, " helpers=t") && o.repeat == "" {
+		if err := overPreviousOutput(); err != nil {
+			if !strings.HasPrefix(err.Error(), "twin:") {
+				o.repeat = "differs:error-over-previous-output-success-in-fresh-package"
+			}
+		} else {
+			check("helpers-added-over-previous-output", filepath.Join(base, "hprev", "rp"))
+		}
 	}
 	// once per case: the run made over a DIFFERENT, longer previous output (more -types / more
 	// options before) must write what a fresh package gets
@@ -565,6 +599,9 @@ func (m *impl14) Exec(line string) string {
 	if ws[1] == "reuse" && len(ws) >= 3 {
 		return m.w.reuseVsCLI("case go_ " + strings.Join(ws[2:], " "))
 	}
+	if ws[1] == "inproc" && len(ws) >= 4 && ws[2] == "chain" {
+		return m.w.chainVsCLI(ws[3:])
+	}
 	if ws[1] == "inproc" && len(ws) >= 3 {
 		return m.w.inprocVsCLI("case go_ " + strings.Join(ws[2:], " "))
 	}
@@ -630,7 +667,11 @@ func run14(f *hx.Flags, w *world) {
 			k = "C14:repeat:" + d.Impl
 		}
 		if len(ws) > 2 && (ws[1] == "inproc" || ws[1] == "reuse") {
-			return "C14:" + ws[2] + ":" + ws[1] + ":" + d.Impl
+			im := d.Impl
+			if i := strings.Index(im, ":in-process-"); i > 0 {
+				im = im[:i] // the byte counts stay in the replay, not in the class
+			}
+			return "C14:" + ws[2] + ":" + ws[1] + ":" + im
 		}
 		if len(d.Case.Lines) > 0 {
 			k = strings.Replace(k, "C14:", "C14:"+strings.Fields(d.Case.Lines[0])[2]+":", 1)
@@ -685,6 +726,11 @@ func run14(f *hx.Flags, w *world) {
 		}
 		gs = append(gs, c)
 	}
+	// hand-written helpers in the definition file that call the generated sorter types
+	gs = append(gs, &gsortCase{helpers: true, fields: []gsortField{{"A", "int", []string{"ByA,1", "*ByAP,2"}}, {"B", "string", []string{"ByA,2", "*ByAP,1"}}}})
+	if g.thorough {
+		gs = append(gs, &gsortCase{helpers: true, two: true, file: "sort", fields: []gsortField{{"A", "int", []string{"ByA,1"}}, {"R", "rank", []string{"*ByR,1,String()"}}}})
+	}
 	for _, c := range gs {
 		var req []string
 		for ti, tn := range c.typeNames() {
@@ -705,6 +751,9 @@ func run14(f *hx.Flags, w *world) {
 		}
 		if c.split >= 4 || (c.split >= 2 && g.thorough) {
 			kk = k + 1 // more generations where a dependence on the parse order would sit
+		}
+		if c.helpers && !g.thorough {
+			kk = 1
 		}
 		ls := lines14(c.header(), kk)
 		kOf[ls[0]] = kk
@@ -740,6 +789,11 @@ func run14(f *hx.Flags, w *world) {
 		}
 		ge = append(ge, c)
 	}
+	// hand-written helpers in the definition file that call generated methods (toPrimaryType)
+	ge = append(ge, &gerrorCase{helpers: true, fields: []gerrField{{"Code", "int", "pc"}, {"Also", "string", "c"}}})
+	if g.thorough {
+		ge = append(ge, &gerrorCase{helpers: true, two: true, skip: true, custom: true, file: "error", fields: []gerrField{{"Stat", "status", "pc"}, {"When", "dur", "c"}}})
+	}
 	for _, c := range ge {
 		var req []string
 		for _, fl := range c.fields {
@@ -753,7 +807,7 @@ func run14(f *hx.Flags, w *world) {
 			req = append(req, fl.name+":"+t)
 		}
 		kk := k
-		if c.prev != "" && !g.thorough {
+		if (c.prev != "" || c.helpers) && !g.thorough {
 			kk = 1
 		}
 		ls := lines14(c.header(), kk, strings.TrimSpace("go_ gerror fields "+strings.Join(req, " ")))
@@ -796,11 +850,19 @@ func run14(f *hx.Flags, w *world) {
 		}
 		gn = append(gn, c)
 	}
+	// hand-written helpers in the definition file that call the generated API (IsValid, String,
+	// Parse<Type>): they do not type-check until the first generation has happened
+	gn = append(gn, &genumCase{n: 3, under: "int", shape: "plain", helpers: true, traits: cols("ustr+p,dur"), opts: [5]bool{true, true, true, false, false}})
+	if g.thorough {
+		gn = append(gn,
+			&genumCase{n: 2, under: "uint8", shape: "two", helpers: true, file: "enum", traits: cols("label+p"), opts: [5]bool{true, false, true, true, false}},
+			&genumCase{n: 4, under: "int32", shape: "plain", helpers: true, out: "enums_gen.go", opts: [5]bool{false, false, false, false, true}})
+	}
 	for _, c := range gn {
 		kk := k
 		if c.shape == "alias" {
 			kk = k + 1 // 12+ generations where an order dependence would sit
-		} else if c.prev != "" && !g.thorough {
+		} else if (c.prev != "" || c.helpers) && !g.thorough {
 			kk = 1
 		}
 		ls := lines14(c.header(), kk)
@@ -904,6 +966,21 @@ func run14(f *hx.Flags, w *world) {
 			}
 		}
 		r.Add(hx.Case{Lines: ls, Domain: true, Nontrivial: true, Tags: []string{"session"}})
+	}
+	// chains: a later generation depends on what an earlier one of the SAME process left in the
+	// package directory (chain.go)
+	{
+		ls := []string{"case go_ session chains",
+			"go_ inproc chain kind=enumtrait order=ab o=tttff",
+			"go_ inproc chain kind=enumtrait order=ba o=tttff",
+			"go_ inproc chain kind=edit gen=gsort steps=2"}
+		if g.thorough {
+			ls = append(ls, "go_ inproc chain kind=edit gen=gsort", "go_ inproc chain kind=edit gen=gerror", "go_ inproc chain kind=edit gen=genum")
+			for _, o := range []string{"tfftf", "ftttf", "fttff", "tftff", "ttttt"} {
+				ls = append(ls, "go_ inproc chain kind=enumtrait order=ab o="+o, "go_ inproc chain kind=enumtrait order=ba o="+o)
+			}
+		}
+		r.Add(hx.Case{Lines: ls, Domain: true, Nontrivial: true, Tags: []string{"session", "chain"}})
 	}
 	r.Res.Extra["generator_runs"] = w.genRuns
 	r.Res.Extra["rounds_per_case"] = k
